@@ -256,14 +256,15 @@ func genCrash(r *Rng, i int, tier string) string {
 
 func init() {
 	register(&Driver{
-		Name:     "crash",
-		Header:   "From ZenoV Require Import Lib.Harness Pipe.CrashLts Pipe.CrashHarness.\nOpen Scope N_scope.\n",
-		CaseType: "ccase",
-		Footer:   stdFooter,
-		Rule:     "non-trivial: rows had been handed out, and at the kill/stop some were still handed out or some had been deleted; distinct by input line",
-		Gen:      genCrash,
-		Exec:     execCrash,
-		Parallel: 6,
+		Name:           "crash",
+		Header:         "From ZenoV Require Import Lib.Harness Pipe.CrashLts Pipe.CrashHarness.\nOpen Scope N_scope.\n",
+		CaseType:       "ccase",
+		Footer:         stdFooter,
+		Rule:           "non-trivial: rows had been handed out, and at the kill/stop some were still handed out or some had been deleted; distinct by input line",
+		Gen:            genCrash,
+		Exec:           execCrash,
+		Parallel:       6,
+		CaseTimeoutSec: 900,
 	})
 }
 
